@@ -308,9 +308,11 @@ def worker(cfg, tier='quick'):
                         batch2 = scenario((bsm, dsm), fs, fname, spec2, N3, SF, counter)
                     final = [(s._tag, s.results['n_runs'], [list(map(int, x)) for x in s.results['effective_error']],
                               len(s.results['success']), len(s.results['codespace'])) for s in batch2]
-                    on_disk = ut.load_json(fname)
                 except Exception as ex:          # noqa
                     err = f'{type(ex).__name__}: {ex}'
+                try:
+                    on_disk = ut.load_json(fname) if fs.isfile(fname) else None
+                except Exception:                # noqa
                     on_disk = None
                 return dict(N1=N1, N2=(N3 or N2), N2a=N2, N3=N3, SF=SF, CP=CP, KIND=KIND, n_opp=n_opp, crashed=crashed, err=err, final=final,
                             last_saved=last_saved.get('data'), on_disk=on_disk)
@@ -333,7 +335,7 @@ def worker(cfg, tier='quick'):
         return dict(n1=v['N1'], n2=v['N2a'], n3=v['N3'], save_frequency=v['SF'], crash_point=v['CP'], kind=v['KIND'],
                     opportunities=v['n_opp'], ext=ext, grow=grow, mode=mode)
     kinds = {'completes-without-error': [], 'exact-trial-counts': [], 'last-completed-save-is-a-prefix': [],
-             'no-trial-counted-twice': [], 'foreign-records-not-adopted': []}
+             'no-trial-counted-twice': [], 'foreign-records-not-adopted': [], 'completed-run-is-on-disk': []}
     wits = {k: None for k in kinds}
     for p in ps:
         if p.exc is not None:
@@ -362,6 +364,11 @@ def worker(cfg, tier='quick'):
                             if tr[:len(saved_tr)] != saved_tr:
                                 ok_prefix = False
             checks['last-completed-save-is-a-prefix'] = ok_prefix
+            # a run that reached its target has saved it: the output file exists and holds every trial
+            disk_ok = v['on_disk'] is not None and len(v['on_disk']) == len(spec) and all(
+                rec['results']['n_runs'] == v['N2'] and len(rec['results']['effective_error']) == v['N2']
+                for rec in v['on_disk'])
+            checks['completed-run-is-on-disk'] = disk_ok
         for k_, ok in checks.items():
             kinds[k_].append(z3_and(p.pc + [z3.BoolVal(not ok)]))
             if not ok and wits[k_] is None:
@@ -450,6 +457,10 @@ def replay(path):
                                 bad = True
             elif 'foreign' in oid:
                 bad = any(t[0] != s.code.L for s in b2 for t in s.results['effective_error'])
+            elif 'on-disk' in oid:
+                data = ut.load_json(fname) if fs.isfile(fname) else None
+                print('on disk after the completed run:', None if data is None else [r_['results']['n_runs'] for r_ in data])
+                bad = data is None or any(r_['results']['n_runs'] != w['n2'] for r_ in data) or len(data) != len(spec2)
         except Exception as ex:
             print('restart raised', type(ex).__name__, ex)
             bad = 'completes' in oid or True
